@@ -327,6 +327,9 @@ func (d *driver) explore(prog *interp.Program, insts []instance) []*result {
 				if d.verbose > 0 {
 					fmt.Printf("  %s %v: paths=%d completed=%d viol=%d inconc=%d queries=%d (feas-unknown %d, fallbacks %d, solver %.1fs) steps=%d %.2fs\n", in.h.Name, in.params,
 						r.Paths, r.Completed, len(r.Violations), len(r.Inconclusive), r.Queries, r.FeasUnknown, r.Fallbacks, r.SolverTime, r.Steps, r.Wall)
+					if d.verbose > 1 {
+						fmt.Printf("     reached: %v\n", r.Reached)
+					}
 				}
 			}
 		}(wi)
